@@ -405,3 +405,90 @@ def write_json(path, obj):
         json.dump(obj, f, indent=1, sort_keys=True)
         f.write("\n")
     os.replace(tmp, path)
+
+
+# ---------------------------------------------------------------------------
+# helpers around the `prog` harness command and the real executables
+# ---------------------------------------------------------------------------
+
+def prog_line(source, opts="-", includes=None):
+    """protocol line for the in-process two-pass assembly of `source` (str/bytes)"""
+    parts = ["prog", opts or "-", hexs(source)]
+    for name, content in (includes or {}).items():
+        parts += [hexs(name), hexs(content)]
+    return " ".join(parts)
+
+
+def parse_prog(ans):
+    """'st=0 err=0 ... img=a:hex;b:hex syms=n=addr@scope,...' -> dict (image as {addr: byte})"""
+    if not ans.startswith("st="):
+        return {"raw": ans, "died": True}
+    d = {"raw": ans, "died": False}
+    for kv in ans.split(" "):
+        k, _, v = kv.partition("=")
+        d[k] = v
+    for k in ("st", "err", "bpa", "ic"):
+        d[k] = int(d[k])
+    for k in ("low", "high", "entry"):
+        d[k] = int(d[k], 16)
+    img = {}
+    if d.get("img", "-") != "-":
+        for seg in d["img"].split(";"):
+            a, _, hx = seg.partition(":")
+            a = int(a, 16)
+            for i in range(0, len(hx), 2):
+                img[a + i // 2] = int(hx[i:i + 2], 16)
+    d["image"] = img
+    kinds = {}
+    if d.get("dbg", "-") != "-":
+        for seg in d["dbg"].split(";"):
+            a, _, ks = seg.partition(":")
+            a = int(a, 16)
+            for i, c in enumerate(ks):
+                kinds[a + i] = c
+    d["kinds"] = kinds
+    for key in ("syms", "p1"):
+        out = []
+        if d.get(key, "-") not in ("-", None):
+            for s in d[key].split(","):
+                name, _, rest = s.rpartition("=")
+                addr, _, scope = rest.partition("@")
+                out.append((name, int(addr, 16), int(scope.rstrip("!")), scope.endswith("!")))
+        d[key + "_list"] = out
+    return d
+
+
+def run_asm(exe, source, tmpdir, args=None, name="t", outtype="bin", timeout=60, extra_files=None):
+    """Run the real (sanitised) naken_asm on `source`.  Returns dict(rc, out, data, path, lst)."""
+    os.makedirs(tmpdir, exist_ok=True)
+    src = os.path.join(tmpdir, name + ".asm")
+    ext = {"bin": "bin", "hex": "hex", "srec": "srec", "elf": "elf", "wdc": "wdc", "uf2": "uf2",
+           "amiga": "amiga", "macho": "macho"}[outtype]
+    outp = os.path.join(tmpdir, name + "." + ext)
+    with open(src, "wb") as f:
+        f.write(source if isinstance(source, bytes) else source.encode("latin-1"))
+    for fn, content in (extra_files or {}).items():
+        with open(os.path.join(tmpdir, fn), "wb") as f:
+            f.write(content if isinstance(content, bytes) else content.encode("latin-1"))
+    if os.path.exists(outp):
+        os.unlink(outp)
+    cmd = [exe, "-type", outtype, "-o", outp] + list(args or []) + [src]
+    try:
+        r = subprocess.run(cmd, stdout=subprocess.PIPE, stderr=subprocess.PIPE, env=SAN_ENV, timeout=timeout, cwd=tmpdir)
+        rc, so, se = r.returncode, r.stdout, r.stderr
+    except subprocess.TimeoutExpired as e:
+        rc, so, se = -999, e.stdout or b"", b"timeout"
+    data = open(outp, "rb").read() if os.path.exists(outp) else None
+    lstp = os.path.join(tmpdir, name + ".lst")
+    lst = open(lstp, "rb").read() if os.path.exists(lstp) else None
+    return {"rc": rc, "out": so.decode("latin-1"), "err": se.decode("latin-1"), "data": data, "path": outp, "lst": lst,
+            "errors": so.decode("latin-1").count("Error")}
+
+
+def run_util(exe, args, stdin_text="", timeout=60, cwd=None):
+    try:
+        r = subprocess.run([exe] + list(args), input=stdin_text.encode("latin-1"), stdout=subprocess.PIPE,
+                           stderr=subprocess.PIPE, env=SAN_ENV, timeout=timeout, cwd=cwd)
+        return {"rc": r.returncode, "out": r.stdout.decode("latin-1"), "err": r.stderr.decode("latin-1")}
+    except subprocess.TimeoutExpired as e:
+        return {"rc": -999, "out": (e.stdout or b"").decode("latin-1"), "err": "timeout"}
